@@ -464,7 +464,18 @@ impl World {
                     TxKind::BankMint { .. } => Some("C09"),
                     _ => None,
                 };
-                discs.push(Disc { owners: okerr_owners(&pred, act.ok, root_leaf), sig: if act.ok { "result:ok-instead-of-err".into() } else { "result:err-instead-of-ok".into() }, msg: format!("the call returned {} but the sub-message rules give {} ({} failure(s) met, {} caught)", if act.ok { "Ok" } else { "Err" }, if pred.ok { "Ok" } else { "Err" }, pred.failures, pred.caught), model_free: false });
+                let mut owners = okerr_owners(&pred, act.ok, root_leaf);
+                if !act.ok {
+                    // the real call failed although nothing fails in the reference: if an entered node
+                    // returned a boundary-case (but valid) attribute key or event type, a validation
+                    // that is stricter than the stated rule is the likely cause
+                    let plain = |s: &str| !s.is_empty() && s.chars().all(|c| c.is_ascii_alphanumeric() || c == '.');
+                    let edgy = pred.trace.iter().filter_map(|e| e.node).filter_map(|n| tx.nodes.get(n)).any(|n| n.attrs.iter().any(|(k, _)| !plain(k)) || n.events.iter().any(|(t, a)| !plain(t) || t.len() < 3 || a.iter().any(|(k, _)| !plain(k))));
+                    if edgy {
+                        owners.push("C13");
+                    }
+                }
+                discs.push(Disc { owners, sig: if act.ok { "result:ok-instead-of-err".into() } else { "result:err-instead-of-ok".into() }, msg: format!("the call returned {} but the sub-message rules give {} ({} failure(s) met, {} caught)", if act.ok { "Ok" } else { "Err" }, if pred.ok { "Ok" } else { "Err" }, pred.failures, pred.caught), model_free: false });
             } else {
                 // state first: a wrong state is the likelier root cause of a wrong response
                 let extra: BTreeSet<String> = it.st.contracts.keys().cloned().collect();
@@ -901,6 +912,98 @@ impl Check for TreeCheck {
     fn shrink(&self, case: &History) -> Vec<History> {
         shrink_history(case)
     }
+
+    fn fixed_cases(&self, _tier: Tier) -> Vec<History> {
+        if self.id == "C13" {
+            c13_grid()
+        } else {
+            vec![]
+        }
+    }
+}
+
+/// C13: the cross product {string class} x {position} x {entry point} x {depth 0-2} x {reply_on},
+/// enumerated completely in every run.
+fn c13_grid() -> Vec<History> {
+    const KEYS: [&str; 16] = ["", " ", "\t", "\u{00a0}", "\u{3000}", "_x", " _x", "__", "\u{2003}_a", "x_", " a ", "é", "a", "a_b", "\u{2003}b", "action"];
+    const TYPES: [&str; 11] = ["", " ", "a", " a ", "\t\n", "x ", "é", "ab", " ab ", "ev", "transfer"];
+    #[derive(Clone, Copy)]
+    enum Pos {
+        AttrKey,
+        EventAttrKey,
+        EventType,
+    }
+    #[derive(Clone, Copy, PartialEq)]
+    enum Entry {
+        Execute,
+        Instantiate,
+        Reply,
+        Sudo,
+        Migrate,
+    }
+    let mut out = vec![];
+    let setup = Setup { balances: vec![[100, 100, 100]; N_USERS], codes: vec![CodeSpec { family: Family::Puppet, how: StoreHow::Plain, own_checksum: None }, CodeSpec { family: Family::WrappedFull, how: StoreHow::Plain, own_checksum: None }], validators: 0, unbonding_time: 60 };
+    let init = |code: u8, admin: Option<ARef>| Tx { kind: TxKind::Exec { sender: ARef::User(0), msg: Msg::Inst { code: KRef(code), node: 0, funds: vec![], label: "c".into(), admin, salt: None }, via: Via::Execute }, nodes: vec![Node { writes: vec![Write::Set(crate::util::Hx(b"init".to_vec()), crate::util::Hx(vec![1]))], ..Default::default() }], qnodes: vec![] };
+    let strings: Vec<(Pos, String)> = KEYS.iter().flat_map(|k| [(Pos::AttrKey, k.to_string()), (Pos::EventAttrKey, k.to_string())]).chain(TYPES.iter().map(|t| (Pos::EventType, t.to_string()))).collect();
+    for (pos, s) in &strings {
+        for entry in [Entry::Execute, Entry::Instantiate, Entry::Reply, Entry::Sudo, Entry::Migrate] {
+            for depth in 0..3usize {
+                for mode in [RO::Never, RO::Success, RO::Error, RO::Always] {
+                    if depth == 0 && mode != RO::Never {
+                        continue; // no enclosing sub-message at depth 0
+                    }
+                    if entry == Entry::Sudo && depth > 0 {
+                        continue; // sudo is a top-level entry point only
+                    }
+                    // the node that returns the string under test
+                    let mut bad = Node { writes: vec![Write::Set(crate::util::Hx(b"w".to_vec()), crate::util::Hx(vec![7]))], reads: vec![Read::Scan], ..Default::default() };
+                    match pos {
+                        Pos::AttrKey => bad.attrs.push((s.clone(), "v".into())),
+                        Pos::EventAttrKey => bad.events.push(("ev".into(), vec![(s.clone(), "v".into())])),
+                        Pos::EventType => bad.events.push((s.clone(), vec![("k".into(), "v".into())])),
+                    }
+                    // nodes: 0 = bad node, then wrappers
+                    let mut nodes = vec![bad];
+                    // message that reaches the bad node
+                    let mut msg = match entry {
+                        Entry::Execute => Msg::Exec { c: CRef(0), node: 0, funds: vec![] },
+                        Entry::Instantiate => Msg::Inst { code: KRef(0), node: 0, funds: vec![], label: "n".into(), admin: None, salt: None },
+                        Entry::Migrate => Msg::Migrate { c: CRef(1), code: KRef(1), node: 0 },
+                        Entry::Reply => {
+                            // a node whose bank sub-message succeeds and whose reply handler is the bad node
+                            nodes.push(Node { subs: vec![Sub { id: 5, payload: crate::util::Hx(vec![0, 1]), reply_on: RO::Success, msg: Msg::Send { to: ARef::Fresh(0), coins: vec![CoinSpec { denom: 0, amt: Amt::Exact(1) }] }, reply: 0 }], ..Default::default() });
+                            Msg::Exec { c: CRef(0), node: nodes.len() - 1, funds: vec![CoinSpec { denom: 0, amt: Amt::Exact(2) }] }
+                        }
+                        Entry::Sudo => Msg::Custom { tag: 0, fail: false },
+                    };
+                    // wrap in `depth` levels of contract calls; the innermost edge carries `mode`
+                    for lvl in 0..depth {
+                        let reply_node = nodes.len();
+                        nodes.push(Node { writes: vec![Write::Set(crate::util::Hx(b"r".to_vec()), crate::util::Hx(vec![lvl as u8 + 1]))], ..Default::default() });
+                        let edge_mode = if lvl == 0 { mode } else { RO::Never };
+                        nodes.push(Node {
+                            writes: vec![Write::Set(crate::util::Hx(b"p".to_vec()), crate::util::Hx(vec![lvl as u8 + 1]))],
+                            subs: vec![Sub { id: 9, payload: crate::util::Hx(vec![1, lvl as u8]), reply_on: edge_mode, msg, reply: if edge_mode == RO::Never { usize::MAX } else { reply_node } }],
+                            ..Default::default()
+                        });
+                        // the migrating wrapper must be the admin: contract 0 is admin of contract 1 (see below)
+                        msg = Msg::Exec { c: CRef(0), node: nodes.len() - 1, funds: vec![] };
+                    }
+                    let kind = if entry == Entry::Sudo {
+                        TxKind::WasmSudo { c: CRef(0), node: 0, via_sudo: s.len() % 2 == 0 }
+                    } else if entry == Entry::Migrate && depth == 0 {
+                        TxKind::Exec { sender: ARef::User(1), msg, via: Via::Execute }
+                    } else {
+                        TxKind::Exec { sender: ARef::User(0), msg, via: Via::Execute }
+                    };
+                    // contract 0: no admin; contract 1: admin = user 1 (depth 0) or contract 0 (nested migrate)
+                    let admin1 = if depth == 0 { ARef::User(1) } else { ARef::C(CRef(0)) };
+                    out.push(History { setup: setup.clone(), txs: vec![init(0, None), init(0, Some(admin1)), Tx { kind, nodes, qnodes: vec![] }] });
+                }
+            }
+        }
+    }
+    out
 }
 
 pub fn shrink_history(h: &History) -> Vec<History> {
